@@ -302,7 +302,7 @@ class TlsHandshakeHelloRandom(ParsableBase):
     @random.default
     def _default_random(self):  # pylint: disable=no-self-use
         return TlsHandshakeHelloRandomBytes(
-            bytearray.fromhex('{:28x}'.format(random.getrandbits(224)).zfill(56))
+            bytearray.fromhex('{:056x}'.format(random.getrandbits(224)))
         )
 
     @classmethod
@@ -1004,7 +1004,7 @@ class SslHandshakeClientHello(SslMessageBase):
 
     @challenge.default
     def _default_challenge(self):  # pylint: disable=no-self-use
-        return bytes(bytearray.fromhex('{:16x}'.format(random.getrandbits(128)).zfill(32)))
+        return bytes(bytearray.fromhex('{:032x}'.format(random.getrandbits(128))))
 
     @classmethod
     def get_message_type(cls):
